@@ -116,7 +116,11 @@ def batch(rng, budget, deep, replay=None, only=None):
     sites = set()
     with warnings.catch_warnings(), _quiet(), np.errstate(all='ignore'):
         warnings.simplefilter('ignore')
-        for path, c in sorted(classes.items()):
+        # family mode (batch_for): every class once with the catalogue parameters and once with a variant;
+        # whole-package mode: one pass, the variant taken half of the time (bounded run time)
+        work = [(p_, c_, None) for p_, c_ in sorted(classes.items())] if not only else \
+            [(p_, c_, v_) for p_, c_ in sorted(classes.items()) for v_ in (False, True)]
+        for path, c, force_variant in work:
             e = catalog.entry(path)
             name = path.split(':')[1]
             if replay is not None and replay.get('cls') != path:
@@ -126,6 +130,18 @@ def batch(rng, budget, deep, replay=None, only=None):
             tol = GRID_TOL.get(name, 0)
             try:
                 s, kw = catalog.build(path, c, rng)
+                # half of the time with non-default parameter values (a shift to the detonator frame done in place is
+                # invisible with the detonator at the origin: seeded C09-9 / C13-9)
+                if force_variant or (force_variant is None and rng.random() < 0.5):
+                    kwv = catalog.variant_kwargs(path, c, rng, kw)
+                    if kwv is None and force_variant:
+                        continue               # no variant for this class: the catalogue pass covered it
+                    if kwv is not None:
+                        try:
+                            s, kw = c(*(e.args() if e.args else ()), **kwv), kwv
+                        except Exception:
+                            if force_variant:
+                                continue
                 n = rng.randint(max(e.min_n, 3), 8)
                 A = e.points(rng, n)
                 t = e.t(rng)
@@ -138,7 +154,17 @@ def batch(rng, budget, deep, replay=None, only=None):
                 B = np.concatenate([extra[:1], A[i:i + 1], extra[1:], A[i:i + 1]])     # superset pieces + duplicate
                 perm = list(range(n))
                 rng.shuffle(perm)
+                A_before = np.array(A, copy=True)
                 solA = s(A, t)
+                if not np.array_equal(A, A_before):
+                    site = '%s:request-array-modified' % name
+                    if site not in sites:
+                        sites.add(site)
+                        res['failures'].append(dict(site=site, detail='the call changed the caller\'s array of points in place '
+                                                    '(first point %r -> %r)' % (A_before[0].tolist() if e.dim > 1 else float(A_before[0]),
+                                                                                A[0].tolist() if e.dim > 1 else float(A[0])),
+                                                    case=dict(cls=path, kind='request-array-modified', t=t, kwargs=repr(kw)[:200])))
+                    A = A_before.copy()
                 if 'Sedov' in name:
                     # sedov.py documents the small-radius regime as interpolated and "not to be trusted":
                     # compare only points with r >= r_shock/2
@@ -605,6 +631,57 @@ def guderley_batch(rng, budget, deep, replay=None):
                                     case=dict(gamma=gamma, geometry=geom, t=t, r=r.tolist())))
             if case:
                 break
+    return res
+
+
+def coord_major_instances(rng, budget, deep, replay=None):
+    """Rectangle and Hutchens2 take coordinate-major (2, N) arrays (a recorded C05 finding), so the catalogue sweep skips
+    them.  Here: an instance with other parameters is used on the same grid first; the instance under test must then
+    return what a fresh instance returns on the grid moved by a relative 1e-12 (a class-level memo keyed by the grid —
+    seeded C14-9 — is hit by the former and not by the latter); also the same grid twice and a permuted grid"""
+    from exactpack.solvers.heat import Rectangle, Hutchens2
+    res = dict(evaluations=0, distinct_nontrivial=0, failures=[], samples=[])
+    jobs = [('Rectangle', Rectangle, lambda: dict(Ttop=rng.uniform(0.5, 3.0), b=rng.choice([1.0, 2.0, 3.0]), Nsum=rng.choice([20, 40]))),
+            ('Hutchens2', Hutchens2, lambda: dict(Nsum=rng.choice([20, 40])))]
+    with warnings.catch_warnings(), _quiet(), np.errstate(all='ignore'):
+        warnings.simplefilter('ignore')
+        for name, C, draw in jobs:
+            try:
+                kw1, kw2 = draw(), draw()
+                kw1 = {k: v for k, v in kw1.items() if k in C.parameters}
+                kw2 = {k: v for k, v in kw2.items() if k in C.parameters}
+                n = rng.randint(3, 7)
+                G = np.array([[rng.uniform(0.1, 0.9) for _ in range(n)], [rng.uniform(0.1, 0.9) for _ in range(n)]])
+                t = rng.uniform(0.05, 0.5)
+                C(**kw1)(G, t)
+                b = C(**kw2)
+                rb = b(G, t)
+                ref = C(**kw2)(G * (1.0 + 1e-12), t)
+                again = b(G, t)
+                perm = list(range(n))
+                rng.shuffle(perm)
+                rp = b(G[:, perm], t)
+            except Exception:
+                continue
+            res['evaluations'] += 4
+            res['distinct_nontrivial'] += 1
+            if not res['samples']:
+                res['samples'].append(dict(cls=name, kwargs_first=kw1, kwargs=kw2, n=n, t=t))
+            for nm in rb.dtype.names:
+                x, y, z, w = (np.asarray(v[nm], dtype=float) for v in (rb, ref, again, rp))
+                if x.shape != y.shape:
+                    continue
+                sc = float(np.nanmax(np.abs(y))) or 1.0
+                if nm not in rb.dtype.names[:2] and np.any(np.abs(x - y) > 1e-7 * sc):
+                    res['failures'].append(dict(site='%s:other-instance-first' % name,
+                                                detail='field %s: %r after an instance with %r was asked for the same grid, %r from a '
+                                                       'fresh instance on the grid moved by 1e-12' % (nm, x.tolist()[:3], kw1, y.tolist()[:3]),
+                                                case=dict(cls=name, kwargs_first=kw1, kwargs=kw2)))
+                    break
+                if np.any(np.abs(x - z) > 1e-13 * sc) or (len(w) == n and np.any(np.abs(x[perm] - w) > 1e-12 * sc)):
+                    res['failures'].append(dict(site='%s:batch' % name, detail='field %s changes on a repeated or permuted request' % nm,
+                                                case=dict(cls=name, kwargs=kw2)))
+                    break
     return res
 
 
